@@ -8,7 +8,7 @@
      - every operand / place of every emitted statement and terminator is "mentioned".
    An operand is [Some id] (Copy id) or [None] (a constant). *)
 From Coq Require Import NArith Bool List.
-From Aelys Require Import Model.AirLower.
+From Aelys Require Import Extracted.LowerFlags Model.AirLower.
 Import ListNotations.
 Local Open Scope N_scope.
 
@@ -33,6 +33,11 @@ Definition alloc_named (x : N) (s : lst) : N * lst :=
 (* alloc_local_id alone: the closure environment parameter *)
 Definition alloc_undeclared (s : lst) : N * lst :=
   (l_next s, mkl (l_next s + 1) (l_locals s) (l_ment s) (l_names s) (l_out s)).
+
+Definition lrestore_names (n : nat) (s : lst) : lst :=
+  mkl (l_next s) (l_locals s) (l_ment s) (keep_oldest n (l_names s)) (l_out s).
+Definition lscope_block (n : nat) (s : lst) : lst := if BLOCK_SCOPES_NAMES then lrestore_names n s else s.
+Definition lscope_loop (n : nat) (s : lst) : lst := if LOOP_SCOPES_NAMES then lrestore_names n s else s.
 
 Definition lookup (x : N) (s : lst) : option N :=
   match find (fun p => fst p =? x) (l_names s) with Some (_, id) => Some id | None => None end.
@@ -134,7 +139,7 @@ with llower_stmt (x : sstmt) (s : lst) : lst :=
   | SLet n e =>
       let '(i, s1) := alloc_named n s in
       let '(o, s2) := llower_expr e s1 in mention (i :: opl o) s2
-  | SBlock b => llower_stmts b s
+  | SBlock b => lscope_block (length (l_names s)) (llower_stmts b s)
   | SIf c t => let '(o, s1) := llower_expr c s in llower_stmt t (mention (opl o) s1)
   | SIfElse c t e =>
       let '(o, s1) := llower_expr c s in llower_stmt e (llower_stmt t (mention (opl o) s1))
@@ -147,7 +152,7 @@ with llower_stmt (x : sstmt) (s : lst) : lst :=
       let '(cd, s5) := alloc_temp (mention (en :: opl hi_o) s4) in
       let s6 := llower_stmt b (mention [cd; it; en; cd] s5) in
       let '(st_o, s7) := llower_expr step s6 in
-      mention (it :: it :: opl st_o) s7
+      lscope_loop (length (l_names s)) (mention (it :: it :: opl st_o) s7)
   | SForEach n itb b =>
       let '(o, s1) := llower_expr itb s in
       let '(col, s2) := alloc_temp s1 in
@@ -156,7 +161,7 @@ with llower_stmt (x : sstmt) (s : lst) : lst :=
       let '(el, s5) := alloc_named n (mention [len; col] s4) in
       let '(cd, s6) := alloc_temp s5 in
       let s7 := llower_stmt b (mention [cd; idx; len; cd; el; col; idx] s6) in
-      mention [idx; idx] s7
+      lscope_loop (length (l_names s)) (mention [idx; idx] s7)
   | SRet => s
   | SRetE e => let '(o, s1) := llower_expr e s in mention (opl o) s1
   | SBreak | SContinue | SNop => s
